@@ -144,6 +144,25 @@ def opCmp (j : Json) : R Json := do
     rows := rows.push (Json.arr row)
   pure (Json.mkObj [("cmp", Json.arr rows)])
 
+def storeOf (j : Json) : R Edxml.Track.Store := do (← arr j).mapM (pairOf str str)
+
+def opTrack (j : Json) : R Json := do
+  let init ← storeOf (← fld j "init")
+  let ops ← (← fldArr j "ops").mapM fun o => do
+    let k ← match ← fldStr o "k" with
+      | "set" => pure Edxml.Track.MutKind.set
+      | "always" => pure Edxml.Track.MutKind.always
+      | "clear" => pure Edxml.Track.MutKind.clear
+      | x => throw s!"unknown mutator kind {x}"
+    pure (k, ← storeOf (← fld o "store"))
+  -- the counter starts at an arbitrary value (the seed ontology was built by mutator calls)
+  let s0 : Edxml.Track.OntState := { store := init, version := 1000 }
+  let (_, steps) := ops.foldl (fun (acc : Edxml.Track.OntState × List Json) op =>
+      let s' := Edxml.Track.step acc.1 op.1 op.2
+      (s', acc.2 ++ [Json.mkObj [("moved", decide (s'.version > acc.1.version)),
+                                 ("decreased", decide (s'.version < acc.1.version))]])) (s0, [])
+  pure (Json.mkObj [("steps", Json.arr steps.toArray)])
+
 def natList (j : Json) : R (List Nat) := do (← arr j).mapM fun x => x.getNat?
 
 def itemOf (j : Json) : R Item := do
@@ -203,6 +222,7 @@ def dispatch (j : Json) : R Json := do
   | "parse" => opParse j
   | "equiv" => opEquiv j
   | "cmp" => opCmp j
+  | "track" => opTrack j
   | x => throw s!"unknown op {x}"
 
 partial def loop (inp out : IO.FS.Stream) : IO Unit := do
